@@ -11,7 +11,8 @@ FAULTS = {
     "unbound": ["undefined-var-zz", "(undefined-fn-zz 1)"],
     "setUnbound": ["(set! undefined-var-zz 1)"],
     "type": ["(car 5)", "(+ 1 'a)", "(vector-ref '(1) 0)", "(cdr '())", "(< 1 \"s\")"],
-    "vectorIndex": ["(vector-ref (vector 1 2) 2)", "(vector-set! (vector 1) 5 0)", "(vector-ref (vector) -1)"],
+    "vectorIndex": ["(vector-ref (vector 1 2) 2)", "(vector-set! (vector 1) 5 0)", "(vector-ref (vector) -1)", "(vector-ref (vector 1 2 3) -1)",
+                    "(vector-set! (vector 1 2 3) -2 0)", "(vector-ref (vector 1 2) -2)"],
     "immutable": ["(vector-set! #(1 2) 0 9)", "(vector-set! '#(1) 0 9)"],
     "divZero": ["(/ 1 0)", "(/ 1/2 0)", "(floor-quotient 5 0)", "(/ 0)"],
 }
@@ -351,7 +352,39 @@ class Gen:
                     forms.append("(define %s (lambda (n acc) (define (mk) (lambda () (* n 10))) (if (= n 0) acc %s)))" % (nm, selfcall("(- n 1)", "(cons (mk) acc)")))
                 arg = "" if style != 1 else " 100"
                 forms.append("(map (lambda (t) (t%s)) (%s %d '()))" % (arg, nm, r.randrange(1, 5)))
-            elif k < 0.76:
+            elif k < 0.75:
+                # procedures taking ALL their arguments as a rest list (no fixed parameter): re-entered non-tail while the list
+                # is still needed, closed over by closures of two different calls, and with the rest parameter named like a
+                # parameter of the enclosing procedure. In the `fixed` spelling the same procedures take one list argument.
+                nm = self.fresh("v")
+                style = r.randrange(3)
+                args = [self.int_(env, 1) for _ in range(r.randrange(1, 5))]
+                args2 = [self.int_(env, 1) for _ in range(r.randrange(0, 3))]
+                pick_rest = r.random() < 0.5
+                sp = self.spelling.get("params")
+                rest = sp == "rest" or (sp is None and pick_rest)
+                sugar = self.spelling.get("define") != "lambda"
+                def defn(name, body):
+                    if rest:
+                        return "(define (%s . xs) %s)" % (name, body) if sugar else "(define %s (lambda xs %s))" % (name, body)
+                    return "(define (%s xs) %s)" % (name, body) if sugar else "(define %s (lambda (xs) %s))" % (name, body)
+                def call(name, a):
+                    return "(%s %s)" % (name, " ".join(a)) if rest else "(%s (list %s))" % (name, " ".join(a))
+                if style == 0:
+                    again = "(apply %s (cdr xs))" % nm if rest else "(%s (cdr xs))" % nm
+                    forms.append(defn(nm, "(if (pair? xs) (+ %s (car xs)) 0)" % again))
+                    forms.append(call(nm, args))
+                elif style == 1:
+                    forms.append(defn(nm, "(lambda () xs)"))
+                    a, b = self.fresh("c"), self.fresh("c")
+                    forms.append("(define %s %s)" % (a, call(nm, args)))
+                    forms.append("(define %s %s)" % (b, call(nm, args2)))
+                    forms.append("(list (%s) (%s) (%s))" % (a, b, a))
+                else:
+                    inner = "((lambda xs (car xs)) 1 2)" if rest else "((lambda (xs) (car xs)) (list 1 2))"
+                    forms.append("(define (%s xs) (+ %s (car xs)))" % (nm, inner))
+                    forms.append("(%s (list %s))" % (nm, " ".join(args)))
+            elif k < 0.78:
                 forms.append(self.list_(env, self.max_depth - 1))
             else:
                 forms.append(self.int_(env, self.max_depth))
@@ -425,6 +458,20 @@ def type_fault_matrix():
         out += ["(vector-ref %s 0)" % bad, "(vector-length %s)" % bad, "(vector-set! %s 0 1)" % bad, "(apply vector-ref (list %s 0))" % bad]
     for bad in ("'a", "1/2", '"s"', "1.5"):
         out += ["(vector-ref (vector 1 2) %s)" % bad, "(vector-set! (vector 1 2) %s 0)" % bad]
+    return out
+
+
+def index_fault_matrix():
+    """vector-ref / vector-set! at every index just outside a vector of length 0..3 on either side (negative indices whose
+    absolute value is inside the vector included), directly and through apply / a procedure"""
+    out = []
+    for n in range(0, 4):
+        v = "(vector %s)" % " ".join(str(10 * (i + 1)) for i in range(n))
+        for k in list(range(-n - 2, 0)) + [n, n + 1, 2147483647, -2147483648]:
+            out.append("(vector-ref %s %d)" % (v, k))
+            out.append("(vector-set! %s %d 0)" % (v, k))
+            out.append("(apply vector-ref (list %s %d))" % (v, k))
+            out.append("((lambda (t i) (vector-ref t i)) %s %d)" % (v, k))
     return out
 
 
